@@ -170,9 +170,17 @@ def opSegs (env : Env) (cfg : Config) (w : World) : Op → List Segment
   | .update _ sc => updateCoreSegs env cfg (w.base cfg) w.disk sc
   | _ => []
 
-/-- A launch: an effective initialisation (crash detection) followed by one call. -/
-def launchSegs (env : Env) (cfg : Config) (w : World) (p : InitParams) (op : Op) : List Segment :=
-  (w.disk, secHandlePriorSaves env cfg w.disk) :: opSegs env cfg (step env w (.init p)).1 op
+/-- The sections of a sequence of calls of one process. -/
+def opsSegs (env : Env) (cfg : Config) : World → List Op → List Segment
+  | _, [] => []
+  | w, op :: rest => opSegs env cfg w op ++ opsSegs env cfg (step env w op).1 rest
+
+/-- A launch: an effective initialisation (crash detection) followed by the calls of that process. -/
+def launchSegs (env : Env) (cfg : Config) (w : World) (p : InitParams) (ops : List Op) : List Segment :=
+  (w.disk, secHandlePriorSaves env cfg w.disk) :: opsSegs env cfg (step env w (.init p)).1 ops
+
+/-- The patches the updates of these calls offer for installation. -/
+def offersOf (ops : List Op) : List Nat := ops.filterMap fun op => op.offer.map (·.number)
 
 def files (d : Disk) : StateFiles := (d.stateJson, d.patchesJson)
 
@@ -189,25 +197,33 @@ def recover (env : Env) (cfg' : Config) (x : Disk) : Disk × Option Nat :=
 /-- What the property allows the next launch to select after a process death, given the state
     before the interrupted launch (`pre`), the state at death (`x`), the patch the interrupted call was
     installing (if any), and whether `pre` was a readable state of the release being launched. -/
-def crashChecks (env : Env) (key : Option String) (pre x : View) (offer : Option Nat) (settledPre : Bool)
-    (recovered : View) (sel : Option Nat) : Checks :=
+def crashChecks (env : Env) (key : Option String) (pre x : View) (offers : List Nat) (settledPre : Bool)
+    (inProgress : Option Nat) (recovered : View) (sel : Option Nat) : Checks :=
   match sel with
   | none => []
   | some n =>
     [ (recovered.nextNum = some n && (match recovered.ps.next with | some m => recovered.valid env key m | none => false),
         s!"C04: after the process death the next launch selected patch {n}, which is not an intact selected patch"),
-      (!settledPre || !pre.ps.bad.contains n, s!"C04: after the process death the next launch selected patch {n}, which was banned before the interrupted call"),
-      (x.bootingNum ≠ some n, s!"C04: after the process death the next launch selected patch {n}, whose own launch was in progress when the process died"),
-      ((slotNums pre).contains n || offer = some n,
-        s!"C04: after the process death the next launch selected patch {n}, which was neither recorded before the interrupted call nor being installed by it"),
-      (settledPre || offer = some n,
+      (!settledPre || !pre.ps.bad.contains n, s!"C04: after the process death the next launch selected patch {n}, which was banned before the interrupted launch"),
+      (x.bootingNum ≠ some n && inProgress ≠ some n,
+        s!"C04: after the process death the next launch selected patch {n}, whose own launch was in progress when the process died"),
+      ((slotNums pre).contains n || offers.contains n,
+        s!"C04: after the process death the next launch selected patch {n}, which was neither recorded before the interrupted launch nor installed by it"),
+      (settledPre || offers.contains n,
         s!"C04: the state on disk belonged to another release (or was unreadable), yet after the process death the next launch of this release selected patch {n} from it") ]
+
+/-- The patch whose launch is in progress while `op` runs: the booting marker the call finds —
+    except for a launch start (which begins a launch) and a success report (which ends it well). -/
+def inProgressAt (w : World) (op : Op) : Option Nat :=
+  match op with
+  | .start | .success | .init _ | .restart => none
+  | _ => (loadPatchesState w.disk).booting.map (·.number)
 
 /-- The property's second sentence, as far as an observer can judge it: after a single I/O error
     inside a call (execution continues), what the SAME process selects next must still be a patch
     recorded before (in a readable state of this release) or the one it was installing, not banned
     before, and intact. -/
-def eioChecks (env : Env) (key : Option String) (pre : View) (offer : Option Nat) (settledPre : Bool)
+def eioChecks (env : Env) (key : Option String) (pre : View) (offers : List Nat) (settledPre : Bool)
     (after : View) (sel : Option Nat) : Checks :=
   match sel with
   | none => []
@@ -215,9 +231,9 @@ def eioChecks (env : Env) (key : Option String) (pre : View) (offer : Option Nat
     [ (after.nextNum = some n && (match after.ps.next with | some m => after.valid env key m | none => false),
         s!"C04: after an I/O error the process selected patch {n}, which is not an intact selected patch"),
       (!settledPre || !pre.ps.bad.contains n, s!"C04: after an I/O error the process selected patch {n}, which was banned before"),
-      ((slotNums pre).contains n || offer = some n,
+      ((slotNums pre).contains n || offers.contains n,
         s!"C04: after an I/O error the process selected patch {n}, which was neither recorded before nor being installed"),
-      (settledPre || offer = some n,
+      (settledPre || offers.contains n,
         s!"C04: the state on disk belonged to another release (or was unreadable), yet after an I/O error during its reset the process selected patch {n} from it") ]
 
 end Updater
